@@ -246,9 +246,35 @@ fn line(t: &mut Tape) -> String {
 
 fn mutate_keyword(t: &mut Tape, kw: &str) -> String {
     let chars: Vec<char> = kw.chars().collect();
-    match t.below(8) {
+    match t.below(9) {
         0 => String::new(),
         7 => t.pick(NEAR_MISSES).to_string(),
+        8 => {
+            // letters replaced by characters that case-map onto them: U+0131 dotless i and U+0130 (-> i / I), U+017F long s
+            // (-> S), U+212A Kelvin sign (-> k); a reader that folds case with to_uppercase/to_lowercase would accept them
+            let mut out = String::new();
+            let mut changed = false;
+            for c in kw.chars() {
+                let r = match c {
+                    'i' if !changed || t.flag() => Some(if t.flag() { '\u{131}' } else { '\u{130}' }),
+                    's' if !changed || t.flag() => Some('\u{17f}'),
+                    'k' if !changed || t.flag() => Some('\u{212a}'),
+                    _ => None,
+                };
+                match r {
+                    Some(x) => {
+                        out.push(x);
+                        changed = true;
+                    }
+                    None => out.push(c),
+                }
+            }
+            if changed {
+                out
+            } else {
+                format!("{}\u{301}", kw)
+            }
+        }
         1 => format!(" {}", kw),
         2 => format!("{} ", kw),
         3 => {
@@ -272,7 +298,7 @@ impl PropImpl for C18 {
         "C18"
     }
     fn rule(&self) -> String {
-        "cases are typed values: every keyword of the 8 enumerations (exhaustive) and, for the rejection clause, keywords with one edit / other enumerations' keywords / a fixed list of near-miss words from neighbouring vocabularies (true, false, on, off, ==, => ...; exhaustive) / empty / padded strings whose \
+        "cases are typed values: every keyword of the 8 enumerations (exhaustive) and, for the rejection clause, keywords with one edit / keywords with letters replaced by characters that case-map onto them (U+0131, U+0130, U+017F, U+212A) / other enumerations' keywords / a fixed list of near-miss words from neighbouring vocabularies (true, false, on, off, ==, => ...; exhaustive) / empty / padded strings whose \
          lower-case form is not a keyword; records (4 checksum types, PackageListEntry with 0-3 extras, changes::File) over whitespace-free tokens and integers; BuildProfile; ParsedVcs and Vcs with every \
          branch/subpath/module combination; Forwarded::Yes, Origin/AppliedUpstream (commit and other) and (category, origin) through the DEP-3 header accessors; License Name/Text/Named; Signature KeyPath/KeyBlock. \
          Payloads come from each type's canonical value domain (unambiguous by the format's own rules). Non-trivial: record / payload-carrying values. Distinct by value hash.".into()
